@@ -63,8 +63,20 @@ def main(argv=None):
             raise AnalysisError('no check implemented for %s' % pid)
         prog = Program(a.src)
         ctx = Ctx(pid, a.tier, prog, seed)
-        mod.run(ctx)
+        # the clauses common to every property first: when the property's
+        # own rules cannot follow the code any more (AnalysisError) but a
+        # common clause already names the construct, that finding is the
+        # verdict
         _unresolvable_names(ctx, pid)
+        from .rules.memo import memo_rules
+        memo_rules(ctx, pid)
+        try:
+            mod.run(ctx)
+        except AnalysisError as e:
+            if not ctx.failed():
+                raise
+            print('note: the rules of %s stopped (%s); the finding(s) of '
+                  'the common clauses stand' % (pid, e))
         if a.tier == 'thorough':
             if hasattr(mod, 'run_thorough'):
                 mod.run_thorough(ctx)
